@@ -15,6 +15,8 @@ Template directives (DESIGN §3.4):
 Exit code 2 (WeaveError) = the state shape or closure structure changed: undecided, not a violation.
 """
 import json, os, re, subprocess, sys, hashlib
+sys.path.insert(0, os.path.dirname(os.path.abspath(__file__)))
+import gates as gates_mod
 
 VERIF = os.path.dirname(os.path.dirname(os.path.abspath(__file__)))
 BUILD = os.path.join(VERIF, "build")
@@ -95,7 +97,7 @@ def gen_cell(name, ty, kind, heap, tp):
 # ------------------------------------------------------------------ template processing
 def subst(text, kv):
     for k in sorted(kv, key=len, reverse=True):
-        text = text.replace("$" + k, kv[k])
+        text = re.sub(r"\$" + re.escape(k) + r"(?![A-Z0-9])", lambda m: kv[k], text)
     return text
 
 
@@ -132,6 +134,61 @@ def take_invariants(text):
     return text, invs
 
 
+def expand_gates_macro(text):
+    for name, i in gates_mod.INDEX.items():
+        text = re.sub(r"\$GATE_" + name + r"\b", f"{i} /*{name}*/", text)
+    if "$GATE_" in text:
+        raise WeaveError("unknown gate name: " + re.search(r"\$GATE_\w+", text).group(0))
+    out = []
+    for line in text.split("\n"):
+        m = re.match(r"^(\s*)GATES!\((.*)\)\s*,?\s*$", line)
+        if m:
+            ind, args = m.groups()
+            recv, rest = args.split(",", 1)
+            for k in range(gates_mod.N):
+                out.append(f"{ind}{recv.strip()}.gate({k},{rest}), /* @dup gate {gates_mod.GATES[k][0]} */")
+        else:
+            out.append(line)
+    return "\n".join(out)
+
+
+def add_unchecked_twins(text):
+    """For every `pub fn call<..>(&self, h, g, c, m ..) requires .. ensures .. {` of a handle type, add
+    `call_unchecked`: same signature and postcondition, no precondition, no body.  It is referenced only
+    by the second verification pass (check.py), which uses it at call sites whose gates already failed,
+    so that later obligations are not judged under the assumption of a failed one."""
+    out, lines, i = [], text.split("\n"), 0
+    while i < len(lines):
+        line = lines[i]
+        m = re.match(r"^(\s*)pub fn call(<.*)$", line)
+        if m and i + 1 < len(lines) and lines[i + 1].strip() == "requires":
+            ind = m.group(1)
+            j = i + 1
+            while lines[j].strip() != "ensures":
+                j += 1
+            k = j
+            while lines[k].strip() != "{":
+                k += 1
+            # find the end of the body to append the twin after it
+            depth, e = 0, k
+            while True:
+                depth += lines[e].count("{") - lines[e].count("}")
+                if depth == 0:
+                    break
+                e += 1
+            attrs = []
+            out.extend(lines[i:e + 1])
+            out.append(f"{ind}#[verifier::external_body]")
+            out.append(f"{ind}pub fn call_unchecked{m.group(2)}")
+            out.extend(lines[j:k])
+            out.append(f"{ind}{{ unimplemented!() }}")
+            i = e + 1
+            continue
+        out.append(line)
+        i += 1
+    return "\n".join(out)
+
+
 def expand_inv_macro(text, parts):
     out = []
     for line in text.split("\n"):
@@ -145,7 +202,7 @@ def expand_inv_macro(text, parts):
     return "\n".join(out)
 
 
-def fill_body(label, body, invs, tokens, nloops):
+def fill_body(label, body, invs, tokens, nloops, parts):
     # loop invariants: `{ __inv!(k);`  ->  `invariant ... {`
     def repl(m):
         k = int(m.group(1))
@@ -158,12 +215,27 @@ def fill_body(label, body, invs, tokens, nloops):
         raise WeaveError(f"handler {label}: {nloops} loops extracted, {n} invariant markers placed")
     for lab, expr in tokens.items():
         body = body.replace(f"Tok_{lab} {{}}", expr)
-    # call-site markers
+    # call sites: marker + one separate assertion per gate and per invariant part (DESIGN 2.2)
     lines, k = [], 0
     for line in body.split("\n"):
         if ".call(h, g, c" in line:
-            line += f" /*@site {label}#{k}*/"
+            site = f"/*@site {label}#{k}*/"
             k += 1
+            m = re.match(r"^(\s*)(\S.*?)\.call\(h, g, c, (.*)\);\s*$", line)
+            if m and not m.group(2).startswith("let "):
+                ind, recv, args = m.groups()
+                lines.append(f"{ind}{{")
+                lines.append(f"{ind}    let __r = {recv}; let __m = {args};")
+                lines.append(f"{ind}    proof {{")
+                for gi, (gn, gp, gt) in enumerate(gates_mod.GATES):
+                    lines.append(f"{ind}        assert(__r.gate({gi}, *h, g@, *c, __m)); /* @{gp} {gt} */ {site}")
+                for name, tag in parts:
+                    lines.append(f"{ind}        assert(__r.needs_inv(g@, __m) ==> inv_{name}(*h, __r.post(g@, __m), *c)); /* {tag} (at the yield) */ {site}")
+                lines.append(f"{ind}    }}")
+                lines.append(f"{ind}    __r.call(h, g, c, __m); {site}")
+                lines.append(f"{ind}}}")
+                continue
+            line += " " + site
         lines.append(line)
     return "\n".join(lines), k
 
@@ -184,6 +256,8 @@ def weave(op_file, cfg):
     tokens = dict((a, b.strip()) for a, b in re.findall(r"^//@token\s+(\w+)\s*=>\s*(.+)$", text, re.M))
     ignores = dict((a, b) for a, b in re.findall(r"^//@ignore\s+(\w+)\s*=\s*(.*)$", text, re.M))
     text, invs = take_invariants(text)
+    text = add_unchecked_twins(text)
+    text = expand_gates_macro(text)
     text = expand_inv_macro(text, parts)
     # cells
     def cell(mm):
@@ -207,7 +281,7 @@ def weave(op_file, cfg):
         if lab not in handlers:
             raise WeaveError(f"no closure labelled `{lab}` in the extraction of {op}")
         h = handlers[lab]
-        body, nsites = fill_body(lab, h["body"], invs, tokens, h["loops"])
+        body, nsites = fill_body(lab, h["body"], invs, tokens, h["loops"], parts)
         used.add(lab)
         meta["handlers"][lab] = {"sites": nsites, "trace_events": h["trace_events"], "loops": h["loops"], "lines": body.count("\n") + 1}
         meta["sites"] += nsites
